@@ -108,3 +108,14 @@ func (cs *ChainService) VerifReexecute(block *types.Block) (root []byte, receipt
 func (cs *ChainService) VerifRawReceipts(blockHash []byte, blockNo types.BlockNo) (*types.Receipts, error) {
 	return cs.cdb.getReceipts(blockHash, blockNo, cs.cfg.Hardfork)
 }
+
+// VerifGetAnchors is what the node sends to a peer it wants to synchronise with (message.GetAnchors).
+func (cs *ChainService) VerifGetAnchors() ([][]byte, types.BlockNo, error) {
+	a, no, err := cs.getAnchorsNew()
+	return [][]byte(a), no, err
+}
+
+// VerifFindAncestor is what the node answers to a peer's anchors (message.GetAncestor).
+func (cs *ChainService) VerifFindAncestor(hashes [][]byte) (*types.BlockInfo, error) {
+	return cs.findAncestor(hashes)
+}
